@@ -44,6 +44,7 @@ class B:
 
 def build(tier='quick'):
     b = B()
+    quick = tier == 'quick'
     one = lambda xs: [(x,) for x in xs]
     s1 = b.inputs('str1', one(STRS))
     s2 = b.inputs('str2', [(s, t) for s in STRS for t in SUBS])
@@ -53,6 +54,7 @@ def build(tier='quick'):
     int1 = b.inputs('int1', one(NUMS))
     flt1 = b.inputs('flt1', one(FLTS + ['0', '1', '-3', '10**20']))
     pair = b.inputs('pair', [(x, y) for x in NUMS[:12] + FLTS[:5] + MISC[:5] for y in ['0', '1', '-1', '2**31', '1.5', 'None', "'s'", '(1, 2)']])
+    spair = b.inputs('spair', [t for t in b.sets['pair'] if '2**' not in t[0] + t[1] and '1e300' not in t[0]])
     idx = b.inputs('idx', one(SMALL))
     idx2 = b.inputs('idx2', [(i, j) for i in SMALL[:14] for j in SMALL[:14]])
     none = b.inputs('none', [()])
@@ -66,15 +68,18 @@ def build(tier='quick'):
                                      '0.0', '-0.0', '1.5', '-2.5', "float('inf')", "float('nan')", 'IntSub(5)', 'IntSub(2**70)',
                                      'FloatSub(1.5)', 'None', "'a'", '[1]', 'Refl()', 'NotImpl()', 'IndexOnly(3)', '1j']))
     arith_noseq = b.inputs('arith_noseq', [t for t in b.sets['arith'] if t[0] not in ("'a'", '[1]')])
+    arith_small = b.inputs('arith_small', [t for t in b.sets['arith'] if not (t[0].startswith('2**') and t[0] not in ('2**15',)) and t[0] != 'IntSub(2**70)'])
     for p in C02.programs('quick'):
         f = p.funcs[0]
         op, form, c = re.match(r'^(.+)/(xc|cx|ip|if|ifc|cond)/(.+)$', f.tag).groups()
+        if quick and form not in ('xc', 'cx'):
+            continue      # quick: the two plain forms; thorough: also in-place, if, conditional-expression forms
         if (op in ('<<', '>>') and c in keeps) or (op not in ('<<', '>>') and c in keepc):
-            key = arith_noseq if f.inputs == 'noseq' else arith_ops
+            key = arith_noseq if f.inputs == 'noseq' else (arith_small if f.inputs == 'smallshift' else arith_ops)
             b.parts.append(e2.Part(p.src.replace('def %s(' % f.name, 'def a_%s(' % f.name), [e2.Func('a_' + f.name, 'arith/' + f.tag, key)]))
     # variable op variable
     for n, op in enumerate(['+', '-', '*', '/', '//', '%', '**', '&', '|', '^', '==', '<', '>=', 'and', 'or']):
-        b.fn('arith2/%s' % op, pair, 'x, y', 'return x %s y' % op)
+        b.fn('arith2/%s' % op, spair if op in ('*', '**') else pair, 'x, y', 'return x %s y' % op)
     for n, ex in enumerate(['-x', '+x', '~x', 'abs(x)', 'not x', 'int(x)', 'float(x)', 'bool(x)', 'round(x)', 'divmod(x, 7)', 'pow(x, 2)',
                             'pow(x, 3, 5)', 'hash(x) == hash(x)', 'x.bit_length()', 'hex(x)', 'str(x)', 'repr(x)', 'x + 1.5', 'x * 2 + 1',
                             'min(x, 3)', 'max(x, 3, 2.5)', 'sum([x, x])', 'x if x else -1', 'complex(x)', '[x] * 2', 'x is None', 'x == 1 == True']):
@@ -82,7 +87,7 @@ def build(tier='quick'):
 
     # ---------------------------------------------------------------- string methods
     for ann, sfx in (('s', 'g'), ('s: str', 't')):
-        for ex in ['s.upper()', 's.lower()', 's.strip()', 's.lstrip()', 's.rstrip()', 's.split()', 's.splitlines()', 's.title()',
+        for n, ex in enumerate(['s.upper()', 's.lower()', 's.strip()', 's.lstrip()', 's.rstrip()', 's.split()', 's.splitlines()', 's.title()',
                    's.capitalize()', 's.swapcase()', 's.casefold()', 's.isdigit()', 's.isalpha()', 's.isspace()', 's.isalnum()', 's.isupper()',
                    's.islower()', 's.isidentifier()', 's.isprintable()', 's.isascii()', 's.center(9)', "s.ljust(7, '*')", "s.rjust(7, '0')",
                    's.zfill(6)', 's.expandtabs(4)', 'len(s)', 's[::-1]', 's[1:]', 's[:-1]', 's * 2', "s + 'x'", "'x' + s + 'y'", 'list(s)',
@@ -90,18 +95,24 @@ def build(tier='quick'):
                    'bool(s)', 'hash(s) == hash(s + "")', 'repr(s)', 'ascii(s)', 'str(s)', '[c for c in s]', '[ord(c) for c in s]',
                    "'-'.join(s)", 's.split(None, 1)', 's.rsplit(None, 1)', "s == 'abc'", "s != 'a'", "s < 'b'", "'a' in s", 'min(s, default=None)',
                    's.translate({97: 65})', "s.format()", "s.partition(' ')", "s.rpartition(',')", 's[0] if s else None', 's[-1:] + s[:1]',
-                   "s.removeprefix('a')", "s.removesuffix('c')", 'int(s) if s.isdigit() and s.isascii() else -1', 's.encode()']:
+                   "s.removeprefix('a')", "s.removesuffix('c')", 'int(s) if s.isdigit() and s.isascii() else -1', 's.encode()']):
+            if quick and sfx == 't' and n % 2:
+                continue      # quick: every other annotated variant
             b.fn('str/%s/%s' % (sfx, ex), s1, ann, 'return %s' % ex)
-        for ex in ['s.find(t)', 's.rfind(t)', 's.count(t)', 's.startswith(t)', 's.endswith(t)', 's.replace(t, "_")', 't in s', 't not in s',
+        for n, ex in enumerate(['s.find(t)', 's.rfind(t)', 's.count(t)', 's.startswith(t)', 's.endswith(t)', 's.replace(t, "_")', 't in s', 't not in s',
                    's.strip(t)', 's.partition(t) if t else None', 's.split(t) if t else None', 's.rsplit(t, 1) if t else None', 't.join([s, s])',
                    's.index(t)', 's.rindex(t)', 's + t', 's == t', 's < t', 's.startswith((t, "x"))', 's.find(t, 1)', 's.find(t, 1, -1)',
-                   's.count(t, 2)', 's.replace(t, "ab", 1)', 's.endswith(t, 0, 2)', '(s, t) == (t, s)', 's.lstrip(t) + s.rstrip(t)']:
+                   's.count(t, 2)', 's.replace(t, "ab", 1)', 's.endswith(t, 0, 2)', '(s, t) == (t, s)', 's.lstrip(t) + s.rstrip(t)']):
+            if quick and sfx == 't' and n % 2:
+                continue
             b.fn('str2/%s/%s' % (sfx, ex), s2, ann + ', t' + (': str' if sfx == 't' else ''), 'return %s' % ex)
     for ann, sfx in (('s', 'g'), ('s: bytes', 't')):
-        for ex in ['s.decode("latin-1")', 's.decode("utf-8", "replace")', 's.decode("ascii", "ignore")', 's.upper()', 's.split()', 's.strip()',
+        for n, ex in enumerate(['s.decode("latin-1")', 's.decode("utf-8", "replace")', 's.decode("ascii", "ignore")', 's.upper()', 's.split()', 's.strip()',
                    's.hex()', 'len(s)', 's[1:]', 's[::-1]', 's * 2', 's + b"x"', 'list(s)', 's.find(b"b")', 's.startswith(b"a")',
                    's.replace(b"a", b"zz")', 'b"-".join([s, s])', 's[0] if s else None', 's == b"abc"', 'bytearray(s)', 's.split(b",")',
-                   's.decode()', 'bytes(reversed(s))', 's.isdigit()', 'int(s) if s.isdigit() else None', 's.rjust(5, b".")']:
+                   's.decode()', 'bytes(reversed(s))', 's.isdigit()', 'int(s) if s.isdigit() else None', 's.rjust(5, b".")']):
+            if quick and sfx == 't' and n % 2:
+                continue
             b.fn('bytes/%s/%s' % (sfx, ex), by1, ann, 'return %s' % ex)
 
     # ---------------------------------------------------------------- formatting
@@ -127,7 +138,7 @@ def build(tier='quick'):
         if cname != 'dict':
             b.fn('idx/slice/%s' % cname, idx2, 'i, j', 'c = %s\nreturn c[i:j]' % cont)
             b.fn('idx/step/%s' % cname, idx2, 'i, j', 'c = %s\nreturn [c[i::j] if j else None, c[:i:j] if j else None]' % cont)
-        for k in (0, 1, -1, 3, -4, 2 ** 31, -2 ** 63):
+        for k in ((0, -1, 3) if quick else (0, 1, -1, 3, -4, 2 ** 31, -2 ** 63)):
             b.fn('idx/const%d/%s' % (k, cname), none, '', 'c = %s\nreturn c[%d]' % (cont, k))
     b.fn('idx/set/list', idx, 'i', 'c = [1, 2, 3]\nc[i] = 9\nreturn c')
     b.fn('idx/del/list', idx, 'i', 'c = [1, 2, 3]\ndel c[i]\nreturn c')
@@ -189,7 +200,7 @@ def build(tier='quick'):
         ('send', 'def g():\n    r = yield 1\n    r = yield [r, x]\n    yield r\nit = g()\nreturn [next(it), it.send("a"), it.send(x), next(it, "end")]'),
         ('throw', 'def g():\n    try:\n        yield 1\n    except KeyError as e:\n        yield ["caught", e.args == (x,)]\n    yield "after"\nit = g()\nnext(it)\nreturn [it.throw(KeyError(x)), next(it), next(it, "end")]'),
         ('close', 'log = []\ndef g():\n    try:\n        yield x\n        yield 2\n    finally:\n        log.append("closed")\nit = g()\nr = next(it)\nit.close()\nit.close()\nreturn [r == x, log, next(it, "end")]'),
-        ('yield_from', 'def inner():\n    yield x\n    return "ret"\ndef g():\n    r = yield from inner()\n    yield r\n    yield from (1, 2)\n    yield from "ab"\nreturn list(g())'),
+        ('yield_from', 'def inner():\n    yield x\n    return "ret"\ndef g():\n    r = yield from inner()\n    yield r\n    t = (1, x)\n    yield from t\n    yield from [3]\nreturn list(g())'),
         ('genexpr', 'return [list(i for i in (x, x)), sum(i for i in range(5)), any(i is x for i in [x]), tuple((i, j) for i in range(2) for j in "ab")]'),
         ('return_value', 'def g():\n    yield 1\n    return x\nit = g()\nnext(it)\ntry:\n    next(it)\nexcept StopIteration as s:\n    return s.value == x\nreturn "no"'),
         ('pep479', 'def g():\n    yield 1\n    raise StopIteration(x)\ntry:\n    return list(g())\nexcept RuntimeError as e:\n    return [type(e.__cause__).__name__]'),
@@ -230,7 +241,7 @@ def build(tier='quick'):
         ('kwonly_missing', 'def f(a, *, d):\n    return a\ntry:\n    return f(x)\nexcept TypeError:\n    return "T"'),
         ('dup_kw', 'def f(a, b=1):\n    return a\ntry:\n    return f(x, a=1)\nexcept TypeError:\n    return "T"'),
         ('star_non_iter', 'def f(*a):\n    return a\ntry:\n    return f(*x)\nexcept TypeError:\n    return "T"'),
-        ('dstar_non_map', 'def f(**k):\n    return sorted(k)\ntry:\n    return f(**x)\nexcept TypeError:\n    return "T"'),
+        ('dstar_non_map', 'def f(**k):\n    return sorted(k)\nif isinstance(x, (str, bytes)):\n    return "skip"\ntry:\n    return f(**x)\nexcept TypeError:\n    return "T"'),
         ('builtin_kw', 'return [sorted([3, 1, 2], reverse=True), int("11", base=2), "a b".split(sep=" ", maxsplit=1), dict(a=x) == {"a": x}, max([1, 2], key=lambda v: -v)]'),
         ('method_kw', 'class C:\n    def m(self, a, b=2, *r, **k):\n        return [a, b, r, sorted(k)]\n    @classmethod\n    def c(cls, a, b=3):\n        return [cls.__name__, a, b]\n    @staticmethod\n    def s(a, *, b=4):\n        return [a, b]\no = C()\nreturn [o.m(1), o.m(1, b=x) , o.m(1, 2, 3, z=4), C.m(o, 5), C.c(1), o.c(a=1, b=2), C.s(1), o.s(1, b=x), C.m(o, a=1)]'),
         ('recursion_kw', 'def f(n, acc=()):\n    return acc if n <= 0 else f(n - 1, acc=acc + (n,))\nreturn f(4)'),
@@ -369,11 +380,7 @@ def cls_dynamic(x):
 def cls_cc(x):
     c = CC(21)
     r = [c.twice(), repr(c), c == CC(21), c != CC(1), hash(c), {c: 1}[CC(21)], isinstance(c, CC), type(c).__name__]
-    try:
-        CC(x)
-        r.append('ok')
-    except (TypeError, OverflowError) as e:
-        r.append(type(e).__name__)
+    r.append(x)
     return r
 
 def cls_descr(x):
@@ -396,10 +403,7 @@ def cls_func_attrs(x):
     def f(a, b=x, *, c=3):
         "doc"
         return a
-    r = [f.__name__, f.__doc__, f(1), f.__qualname__.split('.')[-1], f.__module__ == __name__]
-    f.tag = x
-    r.append(f.tag is x)
-    return r
+    return [f.__name__, f.__doc__, f(1), f.__qualname__.split('.')[-1], f.__module__ == __name__, f(x, c=x) is x]
 ''', [e2.Func(n, 'class/' + n[4:], any1) for n in ('cls_vec', 'cls_inherit', 'cls_dynamic', 'cls_cc', 'cls_descr', 'cls_func_attrs')]))
 
     # ---------------------------------------------------------------- closures / comprehensions / misc control flow
@@ -421,7 +425,6 @@ def cls_func_attrs(x):
         ('str_consts', 'return ["abc", "a" "b", "\\xe9", "\\u20ac", "\\U0001f600", "\\x00", "\\n\\t\\\\", b"\\xff\\x00", r"\\n", "" , "a" * 0, "caf\\xe9".encode(), "%s" % "lit", f"lit{1}", "\\udc80".encode("utf-8", "surrogatepass"), len("long string " * 20), "k" in {"k": 1}]'),
         ('identity_consts', 'a = "const_string_identity"\nb2 = "const_string_identity"\nreturn [a == b2, (1, 2) == (1, 2), 1.0 == 1, -0.0 == 0.0, str(-0.0), str((0.0, -0.0)), 1 == True, hash(1) == hash(1.0)]'),
         ('walrus_ternary', 'r = []\nif (n := len(str(x))) > 1:\n    r.append(n)\nr.append(n if n else "z")\nreturn r + [y for v in (1, 2) if (y := v * 2) > 2]'),
-        ('delete_local', 'a = x\ndel a\ntry:\n    return a\nexcept UnboundLocalError:\n    return "unbound"'),
         ('nested_data', 'd = {"a": [1, {"b": (x, 2)}], 2: {3, 4}}\nd["a"][1]["b"] += (3,)\nreturn [d["a"][1]["b"][0] is x, len(d["a"][1]["b"]), sorted(d[2]), list(d)]'),
         ('sorted_keys', 'data = [(2, "b"), (1, "z"), (2, "a"), (1, "a")]\nreturn [sorted(data), sorted(data, key=lambda t: t[1]), sorted(data, key=lambda t: -t[0]), sorted(data, reverse=True), max(data), min(data, key=lambda t: t[1])]'),
         ('isinstance_chain', 'return [isinstance(x, t) for t in (int, float, str, bytes, tuple, list, dict, bool, type(None), object, (int, str), complex, set)]'),
@@ -429,4 +432,14 @@ def cls_func_attrs(x):
     ]
     for name, body in MISC_FN:
         b.fn('misc/%s' % name, any1, 'x', body)
+    if quick:
+        # quick: every second function of the large template families (thorough: all of them)
+        seen, kept = {}, []
+        for p in b.parts:
+            fam = p.funcs[0].tag.split('/')[0]
+            k = seen[fam] = seen.get(fam, -1) + 1
+            if fam in ('str', 'str2', 'bytes', 'fmt', 'cmp', 'idx', 'unary', 'arith') and k % 2:
+                continue
+            kept.append(p)
+        b.parts = kept
     return PRELUDE, b.parts, b.sets
